@@ -1341,6 +1341,9 @@ func bestByLocation(res *SearchResult, locm map[blob.Ref]camtypes.Location, limi
 
 	if res.LocationArea == nil {
 		// No even one result node with a location was found.
+		// There is nothing to spread over a map; the limit still applies
+		// (len(res.Blobs) > limit >= 0 here).
+		res.Blobs = res.Blobs[:limit]
 		return
 	}
 
